@@ -119,7 +119,6 @@ impl Pre {
 
 // HARNESS props=C12,C07 tier=quick profile=tok shape="3 principals (aliasing allowed), balances/amount full i128"
 #[kani::proof]
-#[kani::unwind(66)]
 fn c12_transfer() {
     let s = pre();
     let from = any::address(3);
@@ -144,7 +143,6 @@ fn c12_transfer() {
 
 // HARNESS props=C12,C07 tier=quick profile=tok shape="delegated transfer; allowance present/absent/expired/boundary"
 #[kani::proof]
-#[kani::unwind(66)]
 fn c12_transfer_from() {
     let s = pre();
     let spender = any::address(3);
@@ -174,7 +172,6 @@ fn c12_transfer_from() {
 
 // HARNESS props=C12,C07 tier=quick profile=tok shape="burn"
 #[kani::proof]
-#[kani::unwind(66)]
 fn c12_burn() {
     let s = pre();
     let from = any::address(3);
@@ -190,7 +187,6 @@ fn c12_burn() {
 
 // HARNESS props=C12,C07 tier=quick profile=tok shape="delegated burn"
 #[kani::proof]
-#[kani::unwind(66)]
 fn c12_burn_from() {
     let s = pre();
     let spender = any::address(3);
@@ -211,7 +207,6 @@ fn c12_burn_from() {
 
 // HARNESS props=C12,C07 tier=quick profile=tok shape="approve; expiration before/at/after the current ledger"
 #[kani::proof]
-#[kani::unwind(66)]
 fn c12_approve() {
     let s = pre();
     let from = any::address(3);
@@ -232,7 +227,6 @@ fn c12_approve() {
 
 // HARNESS props=C12 tier=quick profile=tok shape="allowance/balance queries on the arbitrary pre-state"
 #[kani::proof]
-#[kani::unwind(66)]
 fn c12_queries() {
     let s = pre();
     let from = any::address(3);
@@ -250,7 +244,6 @@ fn c12_queries() {
 
 // HARNESS props=C12,C07,C06 tier=quick profile=tok shape="mint_from / mint; minter flag symbolic"
 #[kani::proof]
-#[kani::unwind(66)]
 fn c12_mint_from() {
     let s = pre();
     let minter = any::address(4);
@@ -266,10 +259,7 @@ fn c12_mint_from() {
         kani::assume(r.is_ok()); // Err = rejected transaction
     }
     let bt = s.b[s.idx(&to)];
-    kani::assert(model::auth_of(&minter), "VERIF:C07:minting needs the minter's own authorisation");
-    if via_owner {
-        kani::assert(model::auth_of(&s.owner), "VERIF:C06:owner minting needs the current owner's authorisation");
-    }
+    kani::assert(model::auth_of(&minter), "VERIF:C07,C06,C12:minting needs the minter's own authorisation (for `mint`: the current owner's)");
     kani::assert(was_minter, "VERIF:C12:only current minters can mint");
     kani::assert(amount >= 0, "VERIF:C12:negative amounts are rejected");
     kani::assert(bal(&to) == bt + amount && s.others_unchanged(&to, &to), "VERIF:C12:mint increases exactly one balance (and the supply) by the amount");
@@ -280,7 +270,6 @@ fn c12_mint_from() {
 
 // HARNESS props=C06,C11 tier=quick profile=tok shape="add_minter / remove_minter; witness minter"
 #[kani::proof]
-#[kani::unwind(66)]
 fn c06_minter_admin() {
     let s = pre();
     let target = any::address(4);
@@ -307,7 +296,6 @@ fn c06_minter_admin() {
 
 // HARNESS props=C12,C06 tier=quick profile=tok shape="transfer_ownership and set_admin; new owner any of 4 principals incl. the current one"
 #[kani::proof]
-#[kani::unwind(66)]
 fn c12_set_admin() {
     let s = pre();
     let new_owner = any::address(4);
@@ -334,7 +322,6 @@ fn c12_set_admin() {
 
 // HARNESS props=C11,C12 tier=quick profile=tok shape="constructor: owner, optional minter, id, metadata (decimals full u32, strings <=2)"
 #[kani::proof]
-#[kani::unwind(66)]
 fn c11_token_constructor() {
     let env = Env::default();
     let owner = any::address(4);
